@@ -11,7 +11,8 @@
 
      apalache-mc check --init=Init    --inv=IndInv --length=0 SlashInd.tla      (Init => IndInv)
      apalache-mc check --init=IndInit --inv=IndInv --length=1 SlashInd.tla      (IndInv /\ Next => IndInv')
-     apalache-mc check --init=IndInit --next=NextW --inv=IndInv --length=1 SlashInd.tla   (must FAIL: `<` for `<=`) *)
+     apalache-mc check --init=IndInit --next=NextW --inv=IndInv --length=1 SlashInd.tla   (must FAIL: `<` for `<=`)
+     apalache-mc check --init=IndInit --next=NextB --inv=IndInv --length=1 SlashInd.tla   (must FAIL: bump keeps source) *)
 EXTENDS Integers, FiniteSets, Apalache
 
 SPE == 32
@@ -60,8 +61,15 @@ SignBlk == \E slot \in Int, d \in Int, released \in BOOLEAN :
     /\ signedBlk' = (IF released THEN signedBlk \union {<<slot, d>>} ELSE signedBlk)
     /\ UNCHANGED <<clock, af, rs, rt, pf, signedAtt>>
 
+(* seeded-change shape "bumpKeepsSource": an outdated record keeps its source and only the target is raised (safe),
+   a share WITHOUT a record gets source 0 (not safe after RemoveShare) *)
+BumpAttWriteB ==
+    /\ IF af THEN rs < Ep(clock) - 1 /\ rt < Ep(clock) /\ rs' = rs ELSE rs' = 0
+    /\ af' = TRUE /\ rt' = Ep(clock) /\ UNCHANGED <<clock, pf, pv, signedAtt, signedBlk>>
+
 Next  == Tick \/ BumpAttWrite \/ BumpPropWrite \/ DelAtt \/ DelProp \/ SignAttW(TRUE) \/ SignBlk
 NextW == Tick \/ BumpAttWrite \/ BumpPropWrite \/ DelAtt \/ DelProp \/ SignAttW(FALSE) \/ SignBlk
+NextB == Tick \/ BumpAttWriteB \/ BumpPropWrite \/ DelAtt \/ DelProp \/ SignAttW(TRUE) \/ SignBlk
 
 NoSlashable ==
     /\ \A a \in signedAtt, b \in signedAtt : a # b => (a[2] # b[2] /\ ~(a[1] < b[1] /\ b[2] < a[2]))
